@@ -87,7 +87,7 @@ class EncoderModel:
                                                           for c in f.calls() if (c.get("callee") or {}).get("nm") in ("resize", "assign", "reserve")),
                                             "template builder (sizes the template)")
         self.putPacket = method_with(lambda f: f.cfg_raw and any(
-            PKT + "::getPayloadLength" in called_names(fn_node) for _, fn_node in
+            PKT + "::getPayloadLength" in called_names(facts.expand(f, fn_node)) for _, fn_node in
             [(b, f.node(f.cfg.blocks[b]["cond"])) for b, _ in paths.loop_header(f) if f.cfg.blocks[b].get("cond", -1) >= 0]),
             "segmentation loop owner")
         self.type_setter = method_with(lambda f: any(k == "assign" and PKT + "::getMessageType" in called_names(n)
@@ -98,8 +98,8 @@ class EncoderModel:
         self.finisher = method_with(lambda f: (f.raw.get("rett") or {}).get("s", "").startswith("std::vector<std::vector<unsigned char") and
                                     f.name.split("::")[-1] != "encode", "frame finisher")
         self.encodes = [f for f in self.methods if f.name == ENC + "::encode"]
-        if len(self.encodes) != 3:
-            raise Broken("Encoder: expected 3 encode overloads (incl. witness instantiations), found %d" % len(self.encodes))
+        if len(self.encodes) < 3:
+            raise Broken("Encoder: expected at least 3 encode overloads (incl. witness instantiations), found %d" % len(self.encodes))
         self.eff = Effects(fb, ENC)
         loops = paths.loop_header(self.putPacket)
         if len(loops) != 1:
@@ -299,6 +299,19 @@ def rule_identity(res, rid, m):
 
 # ---------------------------------------------------------------------------- C08
 
+def loop_position_vars(m):
+    """Locals read by the segmentation loop's condition that the loop itself modifies (the payload
+    position) — a cached total length or other loop-invariant local in the condition is not one."""
+    cond = m.loop_stmt["cond"]
+    written = set()
+    for x in walk(m.loop_stmt.get("body", {})):
+        if x.get("k") in ("assign", "cassign"):
+            written.add(lvalue_root(x["l"]))
+        elif x.get("k") == "un" and x.get("op") in ("pre++", "post++", "pre--", "post--"):
+            written.add(lvalue_root(x["e"]))
+    return [d for d in reads(cond) if d.startswith("l") and d in written]
+
+
 def rule_flag_table(res, rid, m):
     """C08-R1: decision structure of the segment-flag builder, read off its CFG paths with
     its parameters bound to the arguments of its single call in the segmentation loop:
@@ -315,8 +328,7 @@ def rule_flag_table(res, rid, m):
     # roles of the caller's values
     fit = [v["decl"] for n in pp.nodes() if n.get("k") == "decl" for v in n.get("vars", []) if isinstance(v.get("init"), dict) and
            any(m.calls_fn(x, m.fit_checker) for x in walk(v["init"]) if x.get("k") == "call")]
-    cond = m.loop_stmt["cond"]
-    posv = [d for d in reads(cond) if d.startswith("l")]
+    posv = loop_position_vars(m)
     if len(fit) != 1 or len(posv) != 1:
         raise Broken("putPacket: cannot bind the segmented flag / payload position")
     fit, posv = fit[0], posv[0]
@@ -340,7 +352,7 @@ def rule_flag_table(res, rid, m):
             for x, y in ((e["l"], e["r"]), (e["r"], e["l"])):
                 x, y = strip_all_casts(x), strip_all_casts(y)
                 if x.get("k") == "bin" and x.get("op") == "+" and {strip_all_casts(x["l"]).get("decl"), strip_all_casts(x["r"]).get("decl")} == {posv, chunk} and \
-                        PKT + "::getPayloadLength" in called_names(y):
+                        PKT + "::getPayloadLength" in called_names(facts.expand(pp, y)):
                     return True
         return False
 
@@ -377,7 +389,7 @@ def rule_flag_table(res, rid, m):
                         ops = [arg_of(x["l"]), arg_of(x["r"])]
                         ay = arg_of(y)
                         if all(o is not None for o in ops) and ay is not None and {o.get("decl") for o in ops} == {posv, chunk} and \
-                                PKT + "::getPayloadLength" in called_names(ay):
+                                PKT + "::getPayloadLength" in called_names(facts.expand(pp, ay)):
                             last = (a[2] == "==")
                             done = True
                 if not done:
@@ -536,6 +548,17 @@ def rule_batch_order(res, rid, m):
         tag = encode_tag(e)
         puts = [c for c in e.calls() if m.calls_fn(c, m.putPacket)]
         if not loops:
+            dele = [c for c in e.calls() if m.fb.resolve_call(c) in m.encodes and m.fb.resolve_call(c) is not e]
+            if not puts and len(dele) == 1 and len(dele[0].get("args", [])) >= 2:
+                # single packet handed to a range overload as the one-element range [&packet, &packet + 1)
+                a0, a1 = dele[0]["args"][0], dele[0]["args"][1]
+                x = strip_all_casts(facts.expand(e, a0))
+                is_addr = (x.get("k") == "un" and x.get("op") == "&" and strip_all_casts(x["e"]).get("dk") == "param") or \
+                    (x.get("k") == "call" and callee_name(x) in ("std::addressof", "std::__addressof") and strip_all_casts(x["args"][0]).get("dk") == "param")
+                one = const_value(facts.range_length(e, a0, a1)) == 1 if facts.range_length(e, a0, a1) is not None else False
+                res.check(is_addr and one, rid, "encode(%s):single" % tag, e.loc, "single packet: delegates the one-element range [&packet, &packet + 1) to the range overload",
+                          "encode delegates to another overload but not with exactly the range [&packet, &packet + 1)")
+                continue
             res.check(len(puts) == 1, rid, "encode(%s):single" % tag, e.loc, "single packet: one putPacket", "encode calls putPacket %d times" % len(puts))
             continue
         lb, ls = loops[0]
@@ -898,8 +921,7 @@ def rule_one_length(res, rid, m):
             r = lvalue_root(x["l"])
             moved.setdefault(r, []).append((x["op"], canon(strip_all_casts(x["r"])), x))
     # payload position: the local compared with getPayloadLength in the loop condition
-    cond = m.loop_stmt["cond"]
-    pos = [d for d in reads(cond) if d.startswith("l")]
+    pos = loop_position_vars(m)
     if len(pos) != 1:
         raise Broken("putPacket: cannot bind the payload position variable")
     pos = pos[0]
@@ -980,6 +1002,34 @@ def rule_header_tables_agree(res, rid, m):
                   "field %s does not pair up between raw header writer and packet constructor" % s[3:])
 
 
+def header_landing(m):
+    """Where the header writer puts the packet's raw message header:
+    ('inplace', position node, raw call, None): getRawMessageHeader(pointer into the frame);
+    ('staged', position node, raw call, copy call): getRawMessageHeader(&local header), later one raw copy of
+    sizeof(MessageHeader) bytes from that local into the frame (setters in between act on the local)."""
+    fn = m.header_writer
+    cand = [x for x in fn.calls() if callee_name(x) == PKT + "::getRawMessageHeader"]
+    if len(cand) != 1:
+        raise Broken("header writer: expected one getRawMessageHeader call")
+    raw = cand[0]
+    a = strip_all_casts(raw["args"][0])
+    if a.get("k") == "un" and a.get("op") == "&" and strip_all_casts(a["e"]).get("dk") == "local":
+        h = strip_all_casts(a["e"])["decl"]
+        hsize = m.fb.record(MH)["size"]
+        cps = []
+        for c in fn.calls():
+            ca = facts.copy_args(c)
+            if ca is None:
+                continue
+            src = strip_all_casts(ca[1])
+            if src.get("k") == "un" and src.get("op") == "&" and strip_all_casts(src["e"]).get("decl") == h and const_value(ca[2]) == hsize:
+                cps.append((c, ca[0]))
+        if len(cps) != 1:
+            raise Broken("header writer: the locally composed header is not copied into the frame by exactly one %d-byte copy" % hsize)
+        return "staged", cps[0][1], raw, cps[0][0]
+    return "inplace", raw["args"][0], raw, None
+
+
 def rule_header_fully_stamped(res, rid, m):
     """C08-R6: wherever a packet's raw message header is written into a frame, the
     segment type and the payload length of that header are set afterwards on every path
@@ -993,6 +1043,11 @@ def rule_header_fully_stamped(res, rid, m):
             continue
         n += 1
         after = els[raws[-1] + 1:]
+        mode, _, _, commit = header_landing(m)
+        if mode == "staged":
+            # setters count only while the header is still being composed, i.e. before it is copied into the frame
+            ci = [i for i, x in enumerate(after) if x.get("id") == commit["id"]]
+            after = after[:ci[0]] if ci else []
         for setter, what in ((MH + "::setSegmentType", "segment type"), (MH + "::setPayloadLength", "payload length")):
             ok = any(x.get("k") == "call" and callee_name(x) == setter for x in after)
             res.check(ok, rid, "header-writer:%s" % what.replace(" ", "-"), els[raws[-1]].get("loc"),
@@ -1081,10 +1136,7 @@ def rule_writes_inside_frame(res, rid, m):
     # (c) write positions
     for what, fn, node in (("chunk", f, dst), ("header", m.header_writer, None)):
         if node is None:
-            cand = [x for x in fn.calls() if callee_name(x) == PKT + "::getRawMessageHeader"]
-            if len(cand) != 1:
-                raise Broken("header writer: expected one getRawMessageHeader call")
-            node = cand[0]["args"][0]
+            node = header_landing(m)[1]
         e = facts.expand(fn, node)
         subs = [x for x in walk(e) if x.get("k") == "call" and (x.get("callee") or {}).get("nm") == "operator[]"]
         okpos = False
